@@ -17,7 +17,7 @@ After every op every variable and every older stack slot must still equal its mo
         "concat/join are checked on vectors (possibly nested) of strings and untagged integers",
     ],
     max_len: 900,
-    quick_cases: 30_000,
+    quick_cases: 100_000,
     thorough_cases: 1_200_000,
     case,
     systematic: None,
